@@ -232,6 +232,9 @@ def run(tier='quick'):
                         'receives one, and the constructors / id() of the handle classes', floor=100)
     from .. import domains
     domains.apply_width_rule(prog, cg, eff, chk, B9)
+    _funcs = [f for f in prog.functions.values() if f.body is not None and not f.is_pattern
+              and '/schema/' not in (f.file or '') and prog.in_repo(f.file)]
+    rowrules.fetch_widths(prog, chk, B9, rowrules.expand_sites(prog, cg, eff, _funcs))
     B8 = chk.rule('B8', 'the util helpers that carry nullable columns to optional row fields and back '
                         '(optional<A> -> optional<B>) yield a value exactly when given one', floor=4)
     rowrules.optional_lifts(prog, chk, B8)
